@@ -4,6 +4,7 @@ import (
 	"context"
 	"fmt"
 	"os"
+	"strconv"
 	"strings"
 )
 
@@ -164,18 +165,73 @@ func (nm LNumber) Format(f fmt.State, c rune) {
 		defaultFormat(nm.String(), f, c)
 	case 'c': // one byte as C printf does, not a UTF-8 encoded rune
 		defaultFormat(string([]byte{byte(int64(nm))}), f, 's')
-	case 'b', 'd', 'o', 'x', 'X', 'U':
+	case 'd', 'o', 'x', 'X':
+		formatCInteger(f, c, int64(nm))
+	case 'b', 'U':
 		defaultFormat(int64(nm), f, c)
 	case 'e', 'E', 'f', 'F', 'g', 'G':
 		defaultFormat(float64(nm), f, c)
 	case 'i':
-		defaultFormat(int64(nm), f, 'd')
+		formatCInteger(f, 'd', int64(nm))
 	default:
 		if isInteger(nm) {
 			defaultFormat(int64(nm), f, c)
 		} else {
 			defaultFormat(float64(nm), f, c)
 		}
+	}
+}
+
+// formatCInteger renders %d %o %x %X as C printf does.  Go's fmt differs: it
+// honours '+' and ' ' for the unsigned conversions, prefixes a zero value
+// under '#', ignores the prefix when padding with zeros, and drops the sign
+// or the octal zero when value and precision are both 0.
+func formatCInteger(f fmt.State, c rune, v int64) {
+	var digits, prefix string
+	switch c {
+	case 'd':
+		if v < 0 {
+			digits = strconv.FormatUint(uint64(-v), 10)
+		} else {
+			digits = strconv.FormatUint(uint64(v), 10)
+		}
+	case 'o':
+		digits = strconv.FormatUint(uint64(v), 8)
+	case 'x':
+		digits = strconv.FormatUint(uint64(v), 16)
+	default:
+		digits = strings.ToUpper(strconv.FormatUint(uint64(v), 16))
+	}
+	prec, hasPrec := f.Precision()
+	if hasPrec && prec == 0 && v == 0 {
+		digits = ""
+	}
+	if len(digits) < prec {
+		digits = strings.Repeat("0", prec-len(digits)) + digits
+	}
+	switch {
+	case c == 'd' && v < 0:
+		prefix = "-"
+	case c == 'd' && f.Flag('+'):
+		prefix = "+"
+	case c == 'd' && f.Flag(' '):
+		prefix = " "
+	case c == 'o' && f.Flag('#') && !strings.HasPrefix(digits, "0"):
+		digits = "0" + digits
+	case (c == 'x' || c == 'X') && f.Flag('#') && v != 0:
+		prefix = "0" + string(c)
+	}
+	width, _ := f.Width()
+	fill := width - len(prefix) - len(digits)
+	switch {
+	case fill <= 0:
+		fmt.Fprint(f, prefix+digits)
+	case f.Flag('-'):
+		fmt.Fprint(f, prefix+digits+strings.Repeat(" ", fill))
+	case f.Flag('0') && !hasPrec:
+		fmt.Fprint(f, prefix+strings.Repeat("0", fill)+digits)
+	default:
+		fmt.Fprint(f, strings.Repeat(" ", fill)+prefix+digits)
 	}
 }
 
